@@ -390,21 +390,24 @@ class Real:
         return k
 
     def eval(self, e, X):
-        """real evaluator on compact expression e from the assets X (iterable of indexes).
-        -> (status, frozenset idx | None, step name, length of the returned list); memoised per case"""
+        """real evaluator on compact expression e from the assets X (a set of indexes -> sorted list, or an explicit
+        list, possibly with duplicates).  -> (status, frozenset idx | exception | None, step name,
+        length of the returned list, returned list as indexes); memoised per case"""
         from maltoolbox.attackgraph.attackgraph import _process_step_expression
-        key = (json.dumps(e), tuple(sorted(X)))
+        xs = list(X) if isinstance(X, (list, tuple)) else sorted(X)
+        key = (json.dumps(e), tuple(xs))
         if key in self._memo:
             return self._memo[key]
         spec = to_spec(e)
-        targets = [self.objs[k] for k in sorted(X)]
+        targets = [self.objs[k] for k in xs]
         st, val = guarded(self.model, lambda: _process_step_expression(self.lg, self.model, targets, spec),
                           self.nav_budget)
         if st != "ok":
-            out = (st, val, None, 0)
+            out = (st, val, None, 0, ())
         else:
             res, name = val
-            out = ("ok", frozenset(self.index(o) for o in res), name, len(res))
+            raw = tuple(self.index(o) for o in res)
+            out = ("ok", frozenset(raw), name, len(raw), raw)
         self._memo[key] = out
         return out
 
@@ -455,22 +458,33 @@ def cyclic_trans(mv, e, X):
 
 
 def nonterm_blame(real, mv, e, X, st, val):
-    """attribution of a non-terminating evaluation: the reference names a transitive over a reachable cycle, else
-    the generic localisation"""
+    """attribution of a non-terminating evaluation: a transitive closure over a field whose links contain a cycle
+    (reachable from the reference input, or - when an upstream operator handed the closure another input than the
+    reference - anywhere in the model); else the generic localisation"""
+    how = describe(st, val)
     c = cyclic_trans(mv, e, X)
     if c is not None:
-        return dict(op="t", kind="term", sig="transitive:cyclic:%s" % describe(st, val),
+        return dict(op="t", kind="term", sig="transitive:cyclic",
                     msg="%s from assets %s did not terminate within the guard (%s); %s* is applied to %s, from where "
-                        "the links of %s contain a cycle" % (show(e), sorted(X), describe(st, val), c[0], sorted(c[1]),
-                                                            c[0]))
-    return blame(real, mv, e, X)
+                        "the links of %s contain a cycle" % (show(e), sorted(X), how, c[0], sorted(c[1]), c[0]))
+    everything = frozenset(range(mv.n))
+    for f in sorted(trans_fields(mv.lang, e)):
+        if mv.cyclic_from(f, everything):
+            return dict(op="t", kind="term", sig="transitive:cyclic",
+                        msg="%s from assets %s did not terminate within the guard (%s); the links of %s contain a "
+                            "cycle (not reachable on the reference inputs: an earlier operator diverged)" % (
+                                show(e), sorted(X), how, f))
+    return blame(real, mv, e, sorted(X))
 
 
 def blame(real, mv, e, X):
-    """innermost sub-expression of e on which the real evaluator, started from the reference input set, leaves
-    the reference interval.  -> None or dict(op=, kind= 'term'|'value'|'exc'|'name', sig=, msg=)"""
+    """innermost sub-expression of e on which the real evaluator, started from (a list representing) the reference
+    input set, leaves the reference interval.  X: list of asset indexes (duplicates and order as the real code
+    produced them upstream, so that a divergence that only shows on such lists is still attributed to the operator
+    that diverges).  -> None or dict(op=, kind= 'term'|'value'|'exc'|'name', sig=, msg=)"""
     op = e[0]
-    X = frozenset(X)
+    X = list(X)
+    XS = frozenset(X)
     if op in "uid":
         for sub in (e[1], e[2]):
             b = blame(real, mv, sub, X)
@@ -478,8 +492,9 @@ def blame(real, mv, e, X):
     elif op == "c":
         b = blame(real, mv, e[1], X)
         if b: return b
-        l = mv.sem(e[1], X)
-        b = blame(real, mv, e[2], l[0])
+        st_l = real.eval(e[1], X)
+        mid = list(st_l[4]) if st_l[0] == "ok" else sorted(mv.sem(e[1], XS)[0])
+        b = blame(real, mv, e[2], mid)
         if b: return b
     elif op == "s":
         b = blame(real, mv, e[2], X)
@@ -488,38 +503,38 @@ def blame(real, mv, e, X):
         groups = {}
         for x in X:
             body, _U = mv.lang.var(mv.types[x], e[1])
-            groups.setdefault(json.dumps(body), [body, set()])[1].add(x)
+            groups.setdefault(json.dumps(body), [body, []])[1].append(x)
         for (body, g) in groups.values():
             b = blame(real, mv, body, g)
             if b: return b
     elif op == "t":
-        for y in sorted(X | mv.clplus(e[1], X)):
+        for y in sorted(XS | mv.clplus(e[1], XS)):
             b = blame(real, mv, ["f", e[1]], [y])
             if b: return b
-    st, got, name, _n = real.eval(e, X)
-    names = lambda S: sorted(S)
-    where = "%s from assets %s" % (show(e), names(X))
+    st, got, name, _n, _raw = real.eval(e, X)
+    where = "%s from assets %s" % (show(e), X)
     if st != "ok":
         if st == "exc":
             return dict(op=op, kind="exc", sig="%s:%s" % (OPNAME[op], describe(st, got)),
                         msg="%s raised %r" % (where, got))
         cyc = ""
         if op == "t":
-            cyc = ":cyclic" if mv.cyclic_from(e[1], X) else ":acyclic"
+            cyc = ":cyclic" if mv.cyclic_from(e[1], XS) else ":acyclic"
         return dict(op=op, kind="term", sig="%s%s:%s" % (OPNAME[op], cyc, describe(st, got)),
                     msg="%s did not terminate within the guard (%s)" % (where, describe(st, got)))
-    lo, hi = mv.sem(e, X)
+    lo, hi = mv.sem(e, XS)
     if not (lo <= got <= hi):
         q = ""
         if op == "u":
-            q = ":lhs-empty" if not mv.sem(e[1], X)[1] else ":lhs-nonempty"
+            l = real.eval(e[1], X)
+            q = ":lhs-empty" if l[0] == "ok" and not l[1] else ":lhs-nonempty"
         elif op == "f":
             q = ":self-link" if mv.has_self_link() else ":plain"
         elif op == "t":
             q = ":missing" if not lo <= got else ":extra"
         return dict(op=op, kind="value", sig=OPNAME[op] + q,
-                    msg="%s: real %s, reference %s" % (where, names(got), names(lo) if lo == hi else
-                                                       "between %s and %s" % (names(lo), names(hi))))
+                    msg="%s: real %s, reference %s" % (where, sorted(got), sorted(lo) if lo == hi else
+                                                       "between %s and %s" % (sorted(lo), sorted(hi))))
     if name != step_name(e):
         return dict(op=op, kind="name", sig="stepname:" + OPNAME[op],
                     msg="%s names step %r, reference %r" % (where, name, step_name(e)))
